@@ -1,1 +1,71 @@
+(* C19 — obligations re-decided by the kernel for the tables generated from /repo on this run, non-vacuity of the
+   hypotheses of C19/Props.v, and the refutations of the same statements for the unrepaired variant `orig`
+   (witnesses replayed on the real code by tools/props/c19.py). *)
 From S2T Require Import Lib.PyStr C19.Model C19.Proofs Gen.C19Tables.
+From Coq Require Import List Bool NArith.
+Import ListNotations.
+Open Scope N_scope.
+
+(* premise of C19_balanced *)
+Theorem C19_tables_wf : wf T = true.
+Proof. vm_compute. reflexivity. Qed.
+Print Assumptions C19_tables_wf.
+
+(* premises "not a skip tag" of the form theorems hold for every structural element name *)
+Theorem C19_structural_not_skipped :
+  forallb (fun n => negb (mem_str n (skip_tags T)))
+    [s "t"; s "f"; s "sSup"; s "sSub"; s "sSubSup"; s "rad"; s "nary"; s "d"; s "m"; s "func"; s "bar"; s "acc";
+     s "r"; s "e"; s "num"; s "den"; s "sub"; s "sup"; s "deg"; s "fName"; s "mr"; s "oMath"] = true.
+Proof. vm_compute. reflexivity. Qed.
+Print Assumptions C19_structural_not_skipped.
+
+Definition E (name : string) (cs : list omml) : omml := Node (m_ns T ++ s name) [] None cs.
+Definition run (x : str) : omml := E "r" [Node (m_ns T ++ s "t") [] (Some x) []].
+Definition chr (name : string) (v : option str) : omml :=
+  Node (m_ns T ++ s name) (match v with Some x => [(m_ns T ++ s "val", x)] | None => [] end) None [].
+
+Definition w_nary_noval := E "oMath" [E "nary" [E "naryPr" [chr "chr" None]; E "sub" []; E "sup" []; E "e" [run (s "x")]]].
+Definition w_two_radicals := E "oMath" [E "rad" [E "deg" []; E "e" [run (s "(")]]; E "rad" [E "deg" []; E "e" [run (s "(")]]; run (s "a)")].
+Definition w_deg_order := E "oMath" [E "rad" [E "deg" [run (s "a)")]; E "e" [E "rad" [E "e" [run (s "(")]]]]].
+Definition w_nested_nary := E "oMath" [E "nary" [E "sub" []; E "sup" []; E "e" [E "nary" [E "naryPr" [chr "chr" (Some [8719])]; E "e" [run (s "x")]]]]].
+Definition w_nested_delim := E "oMath" [E "d" [E "dPr" []; E "e" [run (s "a+"); E "d" [E "dPr" [chr "begChr" (Some (s "[")); chr "endChr" (Some (s "]"))]; E "e" [run (s "b")]]]]].
+Definition w_beg_noval := E "oMath" [E "d" [E "dPr" [chr "begChr" None]; E "e" [run (s "x")]]].
+
+Definition out_of (r : result) : str := match r with Ok o => chars o | Raise c => s "RAISE:" ++ c end.
+
+(* non-vacuity of C19_balanced's hypothesis, on the very trees that break the unrepaired code *)
+Theorem C19_nobrace_witnesses : forallb nobrace [w_nary_noval; w_two_radicals; w_deg_order; w_nested_nary; w_nested_delim; w_beg_noval] = true.
+Proof. vm_compute. reflexivity. Qed.
+Print Assumptions C19_nobrace_witnesses.
+
+(* ---- the statements are FALSE of the unrepaired code (variant orig) *)
+Theorem C19_orig_total_refuted : exists t, convert T orig t = Raise (s "TypeError").
+Proof. exists w_nary_noval. vm_compute. reflexivity. Qed.
+Print Assumptions C19_orig_total_refuted.
+
+Theorem C19_orig_balanced_refuted :
+  exists t out, nobrace t = true /\ convert T orig t = Ok out /\ balanced (chars out) = false.
+Proof. exists w_two_radicals. eexists. split; [vm_compute; reflexivity|]. split; vm_compute; reflexivity. Qed.
+Print Assumptions C19_orig_balanced_refuted.
+
+Theorem C19_orig_balanced_refuted_deg_order :
+  exists t out, nobrace t = true /\ convert T orig t = Ok out /\ balanced (chars out) = false.
+Proof. exists w_deg_order. eexists. split; [vm_compute; reflexivity|]. split; vm_compute; reflexivity. Qed.
+Print Assumptions C19_orig_balanced_refuted_deg_order.
+
+(* an n-ary / delimiter without own operator takes the one of a nested element *)
+Theorem C19_orig_own_operator_refuted :
+  out_of (convert T orig w_nested_nary) = s "\prod \prod x" /\ out_of (convert T orig w_nested_delim) = s "[a+[b]]".
+Proof. split; vm_compute; reflexivity. Qed.
+Print Assumptions C19_orig_own_operator_refuted.
+
+Theorem C19_orig_none_rendered : out_of (convert T orig w_beg_noval) = s "Nonex)".
+Proof. vm_compute. reflexivity. Qed.
+Print Assumptions C19_orig_none_rendered.
+
+(* ---- and the repaired code gives the intended results on the same trees *)
+Theorem C19_known_witnesses_repaired :
+  map (fun t => out_of (convert T fixed t)) [w_nary_noval; w_two_radicals; w_deg_order; w_nested_nary; w_nested_delim; w_beg_noval]
+  = [s "\sum x"; s "\sqrt{\sqrt{a}}"; s "\sqrt[a)]{\sqrt{}}"; s "\sum \prod x"; s "(a+[b])"; s "(x)"].
+Proof. vm_compute. reflexivity. Qed.
+Print Assumptions C19_known_witnesses_repaired.
